@@ -59,7 +59,12 @@ Definition nset_final (m : nfa) (S : list nat) : bool := existsb (fun q => memb 
 Definition nset_init (m : nfa) : list nat := eclose m (n_init m).
 
 Definition pow2 (n : nat) : nat := Nat.pow 2 n.
-Definition nfa_diff_fuel (A B : nfa) : nat := S (pow2 (length (n_states A)) * pow2 (length (n_states B))).
+(* fuel is a unary nat in the extracted driver: the exact bound 2^a * 2^b only for small
+   operands, a fixed large budget otherwise (any fuel is sound; Err Fuel when exhausted) *)
+Definition big_fuel : nat := 300 * 1000.
+Definition nfa_diff_fuel (A B : nfa) : nat :=
+  if Nat.leb (length (n_states A) + length (n_states B)) 14
+  then S (pow2 (length (n_states A)) * pow2 (length (n_states B))) else big_fuel.
 
 Definition nfa_diff (A B : nfa) : res (option word) :=
   ores (gdiff (list nat) (list nat) (eqb_list Nat.eqb) (eqb_list Nat.eqb)
@@ -71,7 +76,8 @@ Definition nfa_dfa_diff (A : nfa) (B : dfa) : res (option word) :=
   ores (gdiff (list nat) (option nat) (eqb_list Nat.eqb) (eqb_opt Nat.eqb)
               (nset_step A) (ostep B) (nset_final A) (ofinal B)
               (set_union (n_syms A) (d_syms B))
-              (S (pow2 (length (n_states A)) * S (length (d_states B))))
+              (if Nat.leb (length (n_states A)) 14
+               then S (pow2 (length (n_states A)) * S (length (d_states B))) else big_fuel)
               (nset_init A) (Some (d_init B))).
 
 (* membership by the subset run (used by matchers and word-level cross checks) *)
